@@ -1,4 +1,5 @@
 SPECIFICATION Spec
 CONSTANT InnerFix = FALSE
+CONSTANT PartialChunkRaises = FALSE
 INVARIANT Report
 CHECK_DEADLOCK FALSE
